@@ -660,8 +660,12 @@ func (sema *ExprSemanticsChecker) checkArrayDeref(n *ArrayDerefNode) ExprType {
 	case AnyType:
 		return &ArrayType{AnyType{}, true}
 	case *ArrayType:
-		ty.Deref = true
-		return ty
+		if ty.Deref {
+			return ty
+		}
+		// Do not modify the receiver's type. The type object may be shared with the type of a
+		// context such as `matrix` and it is referred by expressions checked later
+		return &ArrayType{ty.Elem, true}
 	case *ObjectType:
 		// Object filtering is available for objects, not only arrays (#66)
 
